@@ -31,3 +31,8 @@ pub(crate) fn depth(p: &Path) -> usize {
         None => 1,
     }
 }
+
+/// Length in bytes of the last component.
+pub(crate) fn last_len(p: &Path) -> usize {
+    p.component.as_bytes().len()
+}
